@@ -1183,6 +1183,841 @@ def gen_api():
     return "".join(out)
 
 
+# --------------------------------------------------------------------------
+# GenCounters.v: the load_counters* functions of the intrinsics back ends, translated
+# statement by statement into terms over Model/Intrinsics.v
+# --------------------------------------------------------------------------
+VTOK = re.compile(r"""
+    (?P<ws>\s+)
+  | (?P<num>0[xX][0-9a-fA-F_]+|[0-9][0-9_]*)(?P<suf>(?:_?(?:u8|u16|u32|u64|usize|i8|i16|i32|i64|isize))|[uUlL]*)
+  | (?P<id>[A-Za-z_][A-Za-z0-9_]*(?:::[A-Za-z_][A-Za-z0-9_]*)*)
+  | (?P<op><<|>>|<=|>=|==|!=|&&|\|\||->|[-+*/%&|^!~<>().,\[\]{};=?:])
+""", re.X)
+
+
+def vtokenize(s, name):
+    out, i = [], 0
+    while i < len(s):
+        m = VTOK.match(s, i)
+        if not m:
+            raise AnchorError(f"{name}: cannot tokenize at {s[i:i+20]!r}")
+        i = m.end()
+        if m.group("ws"):
+            continue
+        if m.group("num"):
+            lit = m.group("num")
+            out.append(("num", (int(lit.replace("_", ""), 0), (m.group("suf") or "").lstrip("_"),
+                                lit[:2].lower() == "0x")))
+        elif m.group("id"):
+            out.append(("id", m.group("id")))
+        else:
+            out.append(("op", m.group("op")))
+    return out
+
+
+# scalar types: (signedness, width).  C `bool` / Rust `bool` is ('u', 1).
+C_SCALAR = {"uint64_t": ("u", 64), "uint32_t": ("u", 32), "uint16_t": ("u", 16), "uint8_t": ("u", 8),
+            "size_t": ("u", 64), "int64_t": ("s", 64), "int32_t": ("s", 32), "int": ("s", 32),
+            "unsigned": ("u", 32), "unsigned int": ("u", 32), "long long": ("s", 64),
+            "unsigned long long": ("u", 64), "bool": ("u", 1), "__int64": ("s", 64)}
+C_VECTOR = {"__m128i": ("v", 4), "__m256i": ("v", 8), "__m512i": ("v", 16), "__mmask16": ("k", 16)}
+C_TYPEWORDS = {w for t in list(C_SCALAR) + list(C_VECTOR) for w in t.split()}
+RS_SCALAR = {"u8": ("u", 8), "u16": ("u", 16), "u32": ("u", 32), "u64": ("u", 64), "usize": ("u", 64),
+             "i32": ("s", 32), "i64": ("s", 64), "bool": ("u", 1)}
+RS_VECTOR = {"__m128i": ("v", 4), "__m256i": ("v", 8), "__m512i": ("v", 16)}
+COQ_RESERVED = {"in", "let", "fun", "if", "then", "else", "match", "end", "as", "at", "with", "forall", "exists",
+                "fix", "cofix", "return", "Type", "Prop", "Set", "for", "where", "using", "vec", "res", "Ok", "N", "Z",
+                "nat", "bool", "list", "map", "repeat", "fst", "snd", "cast_u", "cast_s", "c_true", "mu", "mb", "bind",
+                "bits32", "bits64", "of64", "to64", "w32", "mask32"}
+
+
+class VParser:
+    """Expressions of the vector code (C and Rust).
+       AST: ('num', v, suffix, ishex) ('var', x) ('call', f, [args]) ('meth', recv, m, [args])
+            ('un', op, a) ('bin', op, a, b) ('cast', typename, a) ('cond', c, a, b) ('tuple', [es])"""
+
+    def __init__(self, toks, name, lang):
+        self.t, self.i, self.name, self.lang = toks, 0, name, lang
+
+    def peek(self, k=0):
+        return self.t[self.i + k] if self.i + k < len(self.t) else ("eof", None)
+
+    def next(self):
+        tok = self.peek()
+        self.i += 1
+        return tok
+
+    def expect(self, kind, val):
+        tok = self.next()
+        if tok != (kind, val):
+            raise AnchorError(f"{self.name}: expected {val!r}, got {tok!r}")
+
+    def parse(self):
+        e = self.expr(0)
+        if self.peek()[0] != "eof":
+            raise AnchorError(f"{self.name}: trailing tokens {self.t[self.i:self.i + 6]!r}")
+        return e
+
+    def expr(self, minprec):
+        lhs = self.unary()
+        while True:
+            k, v = self.peek()
+            if self.lang == "rs" and (k, v) == ("id", "as"):
+                self.next()
+                k2, ty = self.next()
+                if k2 != "id" or ty not in RS_SCALAR:
+                    raise AnchorError(f"{self.name}: unknown type after `as`: {ty!r}")
+                lhs = ("cast", ty, lhs)
+                continue
+            if k == "op" and v in BIN_PREC and BIN_PREC[v] >= minprec:
+                self.next()
+                rhs = self.expr(BIN_PREC[v] + 1)
+                lhs = ("bin", v, lhs, rhs)
+                continue
+            if self.lang == "c" and (k, v) == ("op", "?") and minprec <= 0:
+                self.next()
+                a = self.expr(0)
+                self.expect("op", ":")
+                b = self.expr(0)
+                lhs = ("cond", lhs, a, b)
+                continue
+            return lhs
+
+    def unary(self):
+        k, v = self.peek()
+        if k == "op" and v in ("-", "!", "~"):
+            self.next()
+            return ("un", v, self.unary())
+        return self.postfix(self.primary())
+
+    def primary(self):
+        k, v = self.next()
+        if k == "num":
+            return ("num", v[0], v[1], v[2])
+        if k == "id":
+            if self.lang == "rs" and v == "if":
+                c = self.expr(0)
+                self.expect("op", "{")
+                a = self.expr(0)
+                self.expect("op", "}")
+                self.expect("id", "else")
+                self.expect("op", "{")
+                b = self.expr(0)
+                self.expect("op", "}")
+                return ("cond", c, a, b)
+            if self.lang == "rs" and v == "unsafe":
+                self.expect("op", "{")
+                e = self.expr(0)
+                self.expect("op", "}")
+                return e
+            if self.peek() == ("op", "("):
+                self.next()
+                return ("call", v, self.args())
+            return ("var", v)
+        if (k, v) == ("op", "("):
+            if self.lang == "c":
+                j, words = self.i, []
+                while j < len(self.t) and self.t[j][0] == "id" and self.t[j][1] in C_TYPEWORDS:
+                    words.append(self.t[j][1])
+                    j += 1
+                if words and j < len(self.t) and self.t[j] == ("op", ")"):
+                    ty = " ".join(w for w in words if w != "const")
+                    if ty not in C_SCALAR:
+                        raise AnchorError(f"{self.name}: cast to unsupported type {ty!r}")
+                    self.i = j + 1
+                    return ("cast", ty, self.unary())
+            e = self.expr(0)
+            if self.lang == "rs" and self.peek() == ("op", ","):
+                es = [e]
+                while self.peek() == ("op", ","):
+                    self.next()
+                    if self.peek() == ("op", ")"):
+                        break
+                    es.append(self.expr(0))
+                self.expect("op", ")")
+                return ("tuple", es)
+            self.expect("op", ")")
+            return e
+        raise AnchorError(f"{self.name}: unexpected token {(k, v)!r}")
+
+    def args(self):
+        args = []
+        while True:
+            if self.peek() == ("op", ")"):      # empty list or (Rust) trailing comma
+                self.next()
+                return args
+            args.append(self.expr(0))
+            k, v = self.next()
+            if (k, v) == ("op", ")"):
+                return args
+            if (k, v) != ("op", ","):
+                raise AnchorError(f"{self.name}: bad argument list")
+
+    def postfix(self, e):
+        while True:
+            if self.peek() == ("op", ".") and self.peek(1)[0] == "id" and self.peek(2) == ("op", "("):
+                self.next()
+                m = self.next()[1]
+                self.next()
+                e = ("meth", e, m, self.args())
+                continue
+            return e
+
+
+def vparse(text, name, lang):
+    return VParser(vtokenize(text, name), name, lang).parse()
+
+
+def _intrinsic_table():
+    """intrinsic -> (Coq name in Model/Intrinsics.v, argument kinds, result kind).
+       Argument kinds: 'i' integer scalar (int / __int64: the semantics keeps its low bits),
+       'imm' compile-time constant, ('v', n) register of n 32-bit lanes, ('k', 16) __mmask16."""
+    t = {}
+    for p, n, si in (("_mm_", 4, "si128"), ("_mm256_", 8, "si256"), ("_mm512_", 16, "si512")):
+        V = ("v", n)
+        cp = p[1:]
+        t[p + "set1_epi32"] = (cp + "set1_epi32", ["i"], V)
+        t[p + "set_epi32"] = (cp + "set_epi32", ["i"] * n, V)
+        t[p + "setr_epi32"] = (cp + "setr_epi32", ["i"] * n, V)
+        for op in ("add_epi32", "sub_epi32", "and_" + si, "andnot_" + si, "xor_" + si, "or_" + si):
+            t[p + op] = (cp + op, [V, V], V)
+        t[p + "srli_epi32"] = (cp + "srli_epi32", [V, "imm"], V)
+    for p in ("_mm_", "_mm256_"):
+        n = 4 if p == "_mm_" else 8
+        for op in ("cmpgt_epi32", "cmpeq_epi32"):
+            t[p + op] = (p[1:] + op, [("v", n), ("v", n)], ("v", n))
+    t["_mm_cmplt_epi32"] = ("mm_cmplt_epi32", [("v", 4), ("v", 4)], ("v", 4))
+    for p, n, x in (("_mm256_", 8, "x"), ("_mm512_", 16, "")):
+        V, cp = ("v", n), p[1:]
+        t[p + "set1_epi64" + x] = (cp + "set1_epi64" + x, ["i"], V)
+        t[p + "set_epi64" + x] = (cp + "set_epi64" + x, ["i"] * (n // 2), V)
+        t[p + "setr_epi64" + x] = (cp + "setr_epi64" + x, ["i"] * (n // 2), V)
+        t[p + "add_epi64"] = (cp + "add_epi64", [V, V], V)
+        t[p + "srli_epi64"] = (cp + "srli_epi64", [V, "imm"], V)
+        t[p + "cvtepi64_epi32"] = (cp + "cvtepi64_epi32", [V], ("v", n // 2))
+    V, K = ("v", 16), ("k", 16)
+    for op in ("cmplt_epi32_mask", "cmpgt_epi32_mask", "cmplt_epu32_mask", "cmpgt_epu32_mask"):
+        t["_mm512_" + op] = ("mm512_" + op, [V, V], K)
+    t["_mm512_maskz_set1_epi32"] = ("mm512_maskz_set1_epi32", [K, "i"], V)
+    t["_mm512_mask_set1_epi32"] = ("mm512_mask_set1_epi32", [V, K, "i"], V)
+    t["_mm512_movm_epi32"] = ("mm512_movm_epi32", [K], V)
+    return t
+
+
+INTRINSICS = _intrinsic_table()
+
+
+def _coq_kind(kind):
+    return {"v": "vec", "k": "kmask"}.get(kind[0], "Z")
+
+
+def _split_top(text, sep, name):
+    """split at `sep` outside every (), [], {}"""
+    parts, depth, cur = [], 0, []
+    for ch in text:
+        if ch in "([{":
+            depth += 1
+        elif ch in ")]}":
+            depth -= 1
+            if depth < 0:
+                raise AnchorError(f"{name}: unbalanced brackets")
+        if ch == sep and depth == 0:
+            parts.append("".join(cur))
+            cur = []
+        else:
+            cur.append(ch)
+    if depth != 0:
+        raise AnchorError(f"{name}: unbalanced brackets")
+    parts.append("".join(cur))
+    return parts
+
+
+class VecFile:
+    """Translation unit: one C or Rust source file.  Functions are translated on demand
+       (the load_counters functions first, then every file-local helper they call) and emitted
+       in dependency order."""
+
+    def __init__(self, rel, lang, prefix):
+        self.rel, self.lang, self.prefix = rel, lang, prefix
+        self.text = strip_comments(src(rel))
+        self.done = {}       # source function name -> (coq name, [param kinds], result kind or [kinds], monadic)
+        self.order = []      # emitted definitions, dependency order
+        self.busy = set()
+        self.used = set()    # intrinsics that occur
+
+    # ---- common --------------------------------------------------------
+    def ident(self, x, name):
+        if not re.fullmatch(r"[A-Za-z_][A-Za-z0-9_]*", x) or x in COQ_RESERVED or x in INTRINSICS or x.startswith(("mm", "mi_", "rs_", "c_")):
+            raise AnchorError(f"{name}: identifier {x!r} cannot be used as a Coq variable")
+        return x
+
+    def function(self, fname, toplevel=False):
+        if fname in self.done:
+            return self.done[fname]
+        if fname in self.busy:
+            raise AnchorError(f"{self.rel}:{fname}: recursive helper")
+        self.busy.add(fname)
+        sig = self.c_function(fname, toplevel) if self.lang == "c" else self.rs_function(fname, toplevel)
+        self.busy.discard(fname)
+        self.done[fname] = sig
+        return sig
+
+    def call(self, fname, argasts, env, name, scalar_arg, items=None):
+        """(text, kind) of a call of an intrinsic or of a file-local helper"""
+        if fname in INTRINSICS:
+            coq, kinds, ret = INTRINSICS[fname]
+            self.used.add(fname)
+            monadic = False
+        else:
+            if fname.startswith("_mm"):
+                raise AnchorError(f"{name}: intrinsic {fname} has no semantics in Model/Intrinsics.v")
+            coq, kinds, ret, monadic = self.function(fname)
+            if isinstance(ret, list):
+                raise AnchorError(f"{name}: helper {fname} with output parameters used in an expression")
+            if monadic:
+                raise AnchorError(f"{name}: helper {fname} can panic; not supported inside an expression")
+        if len(kinds) != len(argasts):
+            raise AnchorError(f"{name}: {fname} takes {len(kinds)} arguments, {len(argasts)} given")
+        texts = []
+        for kind, a in zip(kinds, argasts):
+            if kind == "imm":
+                if a[0] != "num":
+                    raise AnchorError(f"{name}: {fname}: immediate operand is not a literal: {a!r}")
+                texts.append(f"{a[1]}%Z")
+            elif kind == "i" or kind[0] in "su":
+                texts.append(scalar_arg(a, kind))
+            else:
+                t, k = self.vexpr(a, env, name, items)
+                if k != kind:
+                    raise AnchorError(f"{name}: {fname}: operand of kind {k}, expected {kind}")
+                texts.append(t)
+        return "(" + " ".join([coq] + texts) + ")", ret
+
+    def vexpr(self, ast, env, name, items=None):
+        """vector / mask expression -> (text, kind)"""
+        if ast[0] == "var":
+            if ast[1] not in env or env[ast[1]][0][0] not in "vk":
+                raise AnchorError(f"{name}: {ast[1]} is not a vector variable")
+            return ast[1], env[ast[1]][0]
+        if ast[0] == "call":
+            if self.lang == "c":
+                sa = lambda a, kind: self.c_conv(*self.c_scalar(a, env, name), kind)
+            else:
+                sa = lambda a, kind: self.rs_scalar_arg(a, kind, env, name, items)
+            t, k = self.call(ast[1], ast[2], env, name, sa, items)
+            if k[0] not in "vk":
+                raise AnchorError(f"{name}: {ast[1]} does not return a vector")
+            return t, k
+        raise AnchorError(f"{name}: not a vector expression: {ast!r}")
+
+    # ---- C -------------------------------------------------------------
+    def c_type(self, words, name):
+        ty = " ".join(w for w in words.split() if w != "const")
+        if ty in C_SCALAR:
+            return C_SCALAR[ty]
+        if ty in C_VECTOR:
+            return C_VECTOR[ty]
+        raise AnchorError(f"{name}: unsupported type {words!r}")
+
+    @staticmethod
+    def c_promote(t):
+        return ("s", 32) if t[1] < 32 else t
+
+    @staticmethod
+    def c_common(ta, tb):
+        ta, tb = VecFile.c_promote(ta), VecFile.c_promote(tb)
+        if ta == tb:
+            return ta
+        if ta[0] == tb[0]:
+            return (ta[0], max(ta[1], tb[1]))
+        u, s = (ta, tb) if ta[0] == "u" else (tb, ta)
+        return u if u[1] >= s[1] else s
+
+    @staticmethod
+    def c_conv(text, frm, to):
+        """conversion of a scalar value (integer Z of static type frm) to type `to` ('i': an intrinsic's
+           int / __int64 parameter, whose semantics keeps the low bits: no conversion needed)"""
+        if to == "i" or frm == to:
+            return text
+        if to == ("u", 1):
+            return f"(Z.b2z (c_true {text}))"
+        if to[0] == "u":
+            if frm[0] == "u" and frm[1] <= to[1]:
+                return text
+            return f"(cast_u {to[1]} {text})"
+        if frm[1] < to[1] or (frm[0] == "s" and frm[1] <= to[1]):
+            return text
+        return f"(cast_s {to[1]} {text})"
+
+    def c_scalar(self, ast, env, name):
+        """C integer expression -> (Z-valued Coq text, static type)"""
+        k = ast[0]
+        if k == "num":
+            v, suf, ishex = ast[1], ast[2].lower(), ast[3]
+            cands = [("s", 32), ("u", 32), ("s", 64), ("u", 64)]
+            if "u" in suf:
+                cands = [c for c in cands if c[0] == "u"]
+            elif not ishex:
+                cands = [c for c in cands if c[0] == "s"]
+            if "l" in suf:
+                cands = [c for c in cands if c[1] == 64]
+            for sg, w in cands:
+                if v < (1 << (w - 1 if sg == "s" else w)):
+                    return (f"{hex(v) if ishex else v}%Z", (sg, w))
+            raise AnchorError(f"{name}: literal {v} does not fit")
+        if k == "var":
+            if ast[1] not in env:
+                raise AnchorError(f"{name}: unknown variable {ast[1]}")
+            t, rep = env[ast[1]]
+            if t[0] not in "su":
+                raise AnchorError(f"{name}: {ast[1]} is not a scalar")
+            return ({"N": f"(Z.of_N {ast[1]})", "bool": f"(Z.b2z {ast[1]})", "Z": ast[1]}[rep], t)
+        if k == "cast":
+            x, tx = self.c_scalar(ast[2], env, name)
+            to = C_SCALAR[ast[1]]
+            return self.c_conv(x, tx, to), to
+        if k == "un":
+            x, tx = self.c_scalar(ast[2], env, name)
+            if ast[1] == "!":
+                return f"(Z.b2z (negb (c_true {x})))", ("s", 32)
+            t = self.c_promote(tx)
+            op = {"-": "Z.opp", "~": "Z.lnot"}[ast[1]]
+            # signed: exact (overflow only for -INT_MIN, undefined behaviour, not modelled)
+            return (f"({op} {x})" if t[0] == "s" else f"(cast_u {t[1]} ({op} {x}))"), t
+        if k == "bin" and ast[1] in (">>", "<<"):
+            x, tx = self.c_scalar(ast[2], env, name)
+            t = self.c_promote(tx)
+            if ast[3][0] != "num" or not ast[3][1] < t[1]:
+                raise AnchorError(f"{name}: shift count must be a literal below the width: {ast[3]!r}")
+            if ast[1] == ">>":
+                return f"(Z.shiftr {x} {ast[3][1]}%Z)", t
+            if t[0] == "s":
+                raise AnchorError(f"{name}: left shift of a signed value")
+            return f"(cast_u {t[1]} (Z.shiftl {x} {ast[3][1]}%Z))", t
+        if k == "bin" and ast[1] in ("+", "-", "*", "&", "|", "^"):
+            x, tx = self.c_scalar(ast[2], env, name)
+            y, ty = self.c_scalar(ast[3], env, name)
+            t = self.c_common(tx, ty)
+            x, y = self.c_conv(x, self.c_promote(tx), t), self.c_conv(y, self.c_promote(ty), t)
+            op = {"+": "Z.add", "-": "Z.sub", "*": "Z.mul", "&": "Z.land", "|": "Z.lor", "^": "Z.lxor"}[ast[1]]
+            r = f"({op} {x} {y})"
+            # signed + - *: exact (overflow is undefined behaviour, not modelled)
+            return (f"(cast_u {t[1]} {r})" if t[0] == "u" and ast[1] in "+-*" else r), t
+        if k == "cond":
+            c, _ = self.c_scalar(ast[1], env, name)
+            x, tx = self.c_scalar(ast[2], env, name)
+            y, ty = self.c_scalar(ast[3], env, name)
+            t = self.c_common(tx, ty)
+            x, y = self.c_conv(x, self.c_promote(tx), t), self.c_conv(y, self.c_promote(ty), t)
+            return f"(if c_true {c} then {x} else {y})", t
+        if k == "call":
+            sa = lambda a, kind: self.c_conv(*self.c_scalar(a, env, name), kind)
+            t, kind = self.call(ast[1], ast[2], env, name, sa)
+            if kind[0] not in "su":
+                raise AnchorError(f"{name}: {ast[1]} does not return a scalar")
+            return t, kind
+        raise AnchorError(f"{name}: cannot translate scalar expression {ast!r}")
+
+    def c_function(self, fname, toplevel):
+        name = f"{self.rel}:{fname}"
+        hdr = (r"(?:\bINLINE|\bstatic\s+inline|\bstatic)\s+((?:const\s+)?[A-Za-z_]\w*(?:\s+[A-Za-z_]\w*)*?)\s+"
+               + re.escape(fname) + r"\s*\(([^()]*)\)\s*\{")
+        ms = list(re.finditer(hdr, self.text))
+        if len(ms) != 1:
+            raise AnchorError(f"anchor {name}: {len(ms)} definitions found")
+        m = ms[0]
+        body = fn_body(self.text, hdr, name)
+        env, params, outs = {}, [], []
+        for p in _split_top(m.group(2), ",", name):
+            pm = re.fullmatch(r"\s*((?:const\s+)?[A-Za-z_][\w ]*?)\s*(\*?)\s*([A-Za-z_]\w*)\s*", p)
+            if not pm:
+                raise AnchorError(f"{name}: cannot parse parameter {p!r}")
+            t, x = self.c_type(pm.group(1), name), self.ident(pm.group(3), name)
+            if pm.group(2):
+                if t[0] != "v":
+                    raise AnchorError(f"{name}: pointer parameter {p!r} is not a vector output")
+                outs.append((x, t))
+                continue
+            if t[0] in "vk":
+                rep, cty = "V", _coq_kind(t)
+            elif toplevel and t == ("u", 1):
+                rep, cty = "bool", "bool"
+            elif toplevel and t[0] == "u":
+                rep, cty = "N", "N"
+            else:
+                rep, cty = "Z", "Z"
+            env[x] = (t, rep)
+            params.append((x, t, cty))
+        rt = m.group(1).strip()
+        ret = None if rt == "void" else self.c_type(rt, name)
+        if (ret is None) == (not outs):
+            raise AnchorError(f"{name}: expected either a return value or vector output parameters")
+        lets, stored, result = [], {}, None
+        stmts = [s.strip() for s in _split_top(body, ";", name)]
+        if stmts[-1] != "":
+            raise AnchorError(f"{name}: trailing text {stmts[-1]!r}")
+        for st in stmts[:-1]:
+            if result is not None:
+                raise AnchorError(f"{name}: statement after return: {st!r}")
+            sm = re.fullmatch(r"return\s+(.*)", st, re.S)
+            if sm:
+                if ret is None:
+                    raise AnchorError(f"{name}: return with a value in a void function")
+                result = self.c_rhs(sm.group(1), ret, env, name)
+                continue
+            sm = re.fullmatch(r"\*\s*([A-Za-z_]\w*)\s*=(?!=)\s*(.*)", st, re.S)
+            if sm:
+                x = sm.group(1)
+                ot = dict(outs).get(x)
+                if ot is None or x in stored:
+                    raise AnchorError(f"{name}: bad store {st!r}")
+                stored[x] = True
+                lets.append((x, self.c_rhs(sm.group(2), ot, env, name)))
+                continue
+            sm = re.fullmatch(r"((?:const\s+)?[A-Za-z_]\w*(?:\s+[A-Za-z_]\w*)*?)\s+([A-Za-z_]\w*)\s*=(?!=)\s*(.*)", st, re.S)
+            if sm:
+                t, x = self.c_type(sm.group(1), name), self.ident(sm.group(2), name)
+                if x in env or x in dict(outs):
+                    raise AnchorError(f"{name}: redeclaration of {x}")
+                lets.append((x, self.c_rhs(sm.group(3), t, env, name)))
+                env[x] = (t, "Z" if t[0] in "su" else "V")
+                continue
+            sm = re.fullmatch(r"([A-Za-z_]\w*)\s*=(?!=)\s*(.*)", st, re.S)
+            if sm and sm.group(1) in env and env[sm.group(1)][1] in ("Z", "V") and sm.group(1) not in [p[0] for p in params]:
+                x = sm.group(1)
+                lets.append((x, self.c_rhs(sm.group(2), env[x][0], env, name)))      # shadows the previous value
+                continue
+            raise AnchorError(f"{name}: unrecognised statement {st!r}")
+        if ret is None:
+            missing = [x for x, _ in outs if x not in stored]
+            if missing:
+                raise AnchorError(f"{name}: output(s) {missing} never stored")
+            result = "(" + ", ".join(x for x, _ in outs) + ")"
+            rkind, rty = [t for _, t in outs], " * ".join(_coq_kind(t) for _, t in outs)
+        else:
+            if result is None:
+                raise AnchorError(f"{name}: no return statement")
+            rkind, rty = ret, _coq_kind(ret)
+        coq = f"{self.prefix}_{fname}"
+        ptxt = "".join(f" ({x} : {cty})" for x, _, cty in params)
+        d = f"(* {self.rel}: {fname} *)\nDefinition {coq}{ptxt} : {rty} :=\n"
+        d += "".join(f"  let {x} := {e} in\n" for x, e in lets) + f"  {result}.\n"
+        self.order.append(d)
+        return coq, [t for _, t, _ in params], rkind, False
+
+    def c_rhs(self, text, t, env, name):
+        ast = vparse(text, name, "c")
+        if t[0] in "vk":
+            e, k = self.vexpr(ast, env, name)
+            if k != t:
+                raise AnchorError(f"{name}: value of kind {k} stored into a variable of kind {t}")
+            return e
+        return self.c_conv(*self.c_scalar(ast, env, name), t)
+
+    # ---- Rust ----------------------------------------------------------
+    # Unsigned Rust integers are N-valued and evaluated by the Base/MachInt.v operations (`emit`),
+    # i.e. with the overflow checks of a debug build; each such evaluation is bound monadically, in
+    # source (= evaluation) order, before the vector term is built.
+    def rs_type(self, ty, name):
+        ty = ty.strip()
+        if ty in RS_SCALAR:
+            return RS_SCALAR[ty]
+        if ty in RS_VECTOR:
+            return RS_VECTOR[ty]
+        if ty == "IncrementCounter":
+            return ("u", 1)
+        raise AnchorError(f"{name}: unsupported type {ty!r}")
+
+    def rs_base(self, ast, env, name):
+        """AST of the MachInt translator (`emit`); only unsigned arithmetic"""
+        k = ast[0]
+        if k == "num":
+            return ("num", ast[1])
+        if k == "var":
+            if ast[1] not in env or env[ast[1]][0][0] != "u" or env[ast[1]][0][1] == 1:
+                raise AnchorError(f"{name}: {ast[1]} is not an unsigned integer variable")
+            return ast
+        if k == "bin" and ast[1] in BINOPS:
+            return ("bin", ast[1], self.rs_base(ast[2], env, name), self.rs_base(ast[3], env, name))
+        if k == "cast" and RS_SCALAR[ast[1]][0] == "u":
+            return ("cast", RS_SCALAR[ast[1]][1], self.rs_base(ast[2], env, name))
+        if k == "call" and ast[1] in ("counter_low", "counter_high") and len(ast[2]) == 1:
+            self.rs_crate_fn(ast[1], name)
+            return ("call", ast[1], [self.rs_base(ast[2][0], env, name)])
+        raise AnchorError(f"{name}: cannot translate integer expression {ast!r}")
+
+    def rs_crate_fn(self, f, name):
+        """counter_low / counter_high must be the crate-level functions (GenFormulas.rs_counter_low/high)"""
+        if re.search(r"\bfn\s+" + f + r"\b", self.text):
+            raise AnchorError(f"{name}: file-local definition of {f}")
+        m = find1(r"use\s+crate::\{([^}]*)\}", self.text, f"{name}.use")
+        if f not in [x.strip() for x in m.group(1).split(",")]:
+            raise AnchorError(f"{name}: {f} is not imported from the crate root")
+
+    def rs_tenv(self, env):
+        tenv = {x: t[1] for x, (t, rep) in env.items() if t[0] == "u" and t[1] > 1}
+        tenv.update({"@counter_low": 32, "&counter_low": "rs_counter_low",
+                     "@counter_high": 32, "&counter_high": "rs_counter_high"})
+        return tenv
+
+    def rs_nat(self, ast, want, env, name, items):
+        """N-valued text of an unsigned integer expression of width `want`"""
+        if ast[0] == "num":
+            if not ast[1] < (1 << want):
+                raise AnchorError(f"{name}: literal {ast[1]} does not fit in u{want}")
+            return str(ast[1])
+        if ast[0] == "var" and ast[1] in env and env[ast[1]][0] == ("u", want):
+            return ast[1]
+        base = self.rs_base(ast, env, name)
+        tenv = self.rs_tenv(env)
+        w = width_of(base, tenv)
+        if w != want:
+            raise AnchorError(f"{name}: expression of width {w}, expected {want}: {ast!r}")
+        if items is None:
+            raise AnchorError(f"{name}: integer computation {ast!r} in a position that cannot panic")
+        x = f"t{sum(1 for it in items if it[0] == 'bind')}"
+        if x in env:
+            raise AnchorError(f"{name}: name clash on {x}")
+        items.append(("bind", x, emit(base, tenv, {}, name, want)))
+        return x
+
+    def rs_scalar_arg(self, ast, kind, env, name, items):
+        if kind == "i":
+            # argument of an intrinsic (i32 / i64): `<unsigned expr> as i32`, or a literal
+            if ast[0] == "num":
+                return f"{ast[1]}%Z"
+            if ast[0] == "cast" and RS_SCALAR[ast[1]][0] == "s":
+                inner = ast[2]
+                if inner[0] == "var" and inner[1] in env and env[inner[1]][0][0] == "u" and env[inner[1]][0][1] > 1:
+                    w = env[inner[1]][0][1]
+                    n = inner[1]
+                else:
+                    base = self.rs_base(inner, env, name)
+                    w = width_of(base, self.rs_tenv(env))
+                    if w is None:
+                        raise AnchorError(f"{name}: cannot infer the width of {inner!r}")
+                    n = self.rs_nat(inner, w, env, name, items)
+                return f"(cast_s {RS_SCALAR[ast[1]][1]} (Z.of_N {n}))"
+            raise AnchorError(f"{name}: unsupported intrinsic argument {ast!r}")
+        if kind[0] == "u" and kind[1] > 1:
+            return self.rs_nat(ast, kind[1], env, name, items)
+        raise AnchorError(f"{name}: unsupported argument kind {kind}")
+
+    def rs_infer(self, asts, env, unknown, name):
+        """widths of un-annotated `let` integers: both operands of a (non-shift) binary operator have one type"""
+        def known(a):
+            if a[0] == "var":
+                return env[a[1]][0][1] if a[1] in env and env[a[1]][0][0] == "u" and a[1] not in unknown else None
+            if a[0] == "cast":
+                return RS_SCALAR[a[1]][1]
+            if a[0] == "bin":
+                return known(a[2]) if a[1] in ("<<", ">>") else (known(a[2]) or known(a[3]))
+            if a[0] == "un":
+                return known(a[2])
+            return None
+
+        def push(a, w):
+            if a[0] == "var" and a[1] in unknown and unknown[a[1]] is None:
+                unknown[a[1]] = w
+            elif a[0] == "bin":
+                push(a[2], w)
+                if a[1] not in ("<<", ">>"):
+                    push(a[3], w)
+            elif a[0] == "un":
+                push(a[2], w)
+
+        def walk(a):
+            if a[0] == "bin" and a[1] not in ("<<", ">>"):
+                w = known(a)
+                if w:
+                    push(a, w)
+            for sub in a[1:]:
+                if isinstance(sub, tuple):
+                    walk(sub)
+                elif isinstance(sub, list):
+                    for s2 in sub:
+                        if isinstance(s2, tuple):
+                            walk(s2)
+        for _ in range(3):
+            for a in asts:
+                walk(a)
+            for x, w in unknown.items():
+                if w is not None:
+                    env[x] = (("u", w), "N")
+        missing = [x for x, w in unknown.items() if w is None]
+        if missing:
+            raise AnchorError(f"{name}: cannot infer the type of {missing}")
+
+    def rs_function(self, fname, toplevel):
+        name = f"{self.rel}:{fname}"
+        hdr = r"\bfn\s+" + re.escape(fname) + r"\s*\(([^()]*)\)\s*(?:->\s*([^{;]+?))?\s*\{"
+        ms = list(re.finditer(hdr, self.text))
+        if len(ms) != 1:
+            raise AnchorError(f"anchor {name}: {len(ms)} definitions found")
+        m = ms[0]
+        body = fn_body(self.text, hdr, name).strip()
+        env, params = {}, []
+        for p in _split_top(m.group(1), ",", name):
+            if not p.strip():
+                continue
+            pm = re.fullmatch(r"\s*([A-Za-z_]\w*)\s*:\s*([A-Za-z_]\w*)\s*", p)
+            if not pm:
+                raise AnchorError(f"{name}: cannot parse parameter {p!r}")
+            x, t = self.ident(pm.group(1), name), self.rs_type(pm.group(2), name)
+            env[x] = (t, "V" if t[0] == "v" else ("bool" if t == ("u", 1) else "N"))
+            params.append((x, t, "vec" if t[0] == "v" else ("bool" if t == ("u", 1) else "N")))
+        if m.group(2) is None:
+            raise AnchorError(f"{name}: no return type")
+        rt = m.group(2).strip()
+        tm = re.fullmatch(r"\((.*)\)", rt, re.S)
+        rkind = [self.rs_type(t, name) for t in tm.group(1).split(",") if t.strip()] if tm else self.rs_type(rt, name)
+        # peel `unsafe { ... }` blocks that wrap the whole remaining body
+        while True:
+            um = re.fullmatch(r"unsafe\s*\{(.*)\}", body, re.S)
+            if not um:
+                break
+            try:
+                _split_top(um.group(1), ";", name)
+            except AnchorError:
+                break
+            body = um.group(1).strip()
+        stmts = [s.strip() for s in _split_top(body, ";", name)]
+        tail = stmts[-1]
+        if not tail:
+            raise AnchorError(f"{name}: no tail expression")
+        parsed, unknown = [], {}
+        for st in stmts[:-1]:
+            sm = re.fullmatch(r"let\s+([A-Za-z_]\w*)\s*(?::\s*([A-Za-z_]\w*)\s*)?=(?!=)\s*(.*)", st, re.S)
+            if not sm:
+                raise AnchorError(f"{name}: unrecognised statement {st!r}")
+            x = self.ident(sm.group(1), name)
+            if x in env:
+                raise AnchorError(f"{name}: rebinding of {x}")
+            ast = vparse(sm.group(3), name, "rs")
+            if sm.group(2):
+                env[x] = (self.rs_type(sm.group(2), name), None)
+            else:
+                env[x] = (None, None)
+            parsed.append((x, ast))
+        tail_ast = vparse(tail, name, "rs")
+        # classify the un-annotated lets: vector (a call returning a vector) or integer (inferred width)
+        for x, ast in parsed:
+            if env[x][0] is None:
+                if ast[0] == "call":
+                    env[x] = (("v", 0), "V?")
+                else:
+                    unknown[x] = None
+                    env[x] = (("u", 0), "N")
+        self.rs_infer([a for _, a in parsed] + [tail_ast], env, unknown, name)
+        items = []
+        for x, ast in parsed:
+            t = env[x][0]
+            if t[0] == "v":
+                e, k = self.vexpr(ast, env, name, items)
+                if env[x][1] != "V?" and k != t:
+                    raise AnchorError(f"{name}: {x}: vector of kind {k}, declared {t}")
+                env[x] = (k, "V")
+                items.append(("let", x, e))
+            elif t[0] == "u" and t[1] > 1:
+                env_x = env.pop(x)             # not in scope in its own initialiser
+                if ast[0] == "cond":
+                    e = self.rs_cond(ast, t[1], env, name)
+                    items.append(("let", x, e))
+                else:
+                    n = self.rs_nat(ast, t[1], env, name, items)
+                    items.append(("let", x, n))
+                env[x] = (t, "N")
+            else:
+                raise AnchorError(f"{name}: unsupported let {x}")
+        if isinstance(rkind, list):
+            if tail_ast[0] != "tuple" or len(tail_ast[1]) != len(rkind):
+                raise AnchorError(f"{name}: the tail expression is not a {len(rkind)}-tuple")
+            es = []
+            for a, k in zip(tail_ast[1], rkind):
+                e, k2 = self.vexpr(a, env, name, items)
+                if k2 != k:
+                    raise AnchorError(f"{name}: component of kind {k2}, expected {k}")
+                es.append(e)
+            result, rty = "(" + ", ".join(es) + ")", " * ".join(_coq_kind(k) for k in rkind)
+        else:
+            result, k2 = self.vexpr(tail_ast, env, name, items)
+            if k2 != rkind:
+                raise AnchorError(f"{name}: result of kind {k2}, expected {rkind}")
+            rty = _coq_kind(rkind)
+        monadic = any(it[0] == "bind" for it in items)
+        coq = f"{self.prefix}_{fname}"
+        ptxt = "".join(f" ({x} : {cty})" for x, _, cty in params)
+        d = f"(* {self.rel}: {fname} *)\nDefinition {coq}{ptxt} : {'res (' + rty + ')' if monadic else rty} :=\n"
+        for it in items:
+            d += f"  let {it[1]} := {it[2]} in\n" if it[0] == "let" else f"  {it[1]} <- {it[2]} ;;\n"
+        d += f"  Ok {result}.\n" if monadic else f"  {result}.\n"
+        self.order.append(d)
+        return coq, [t for _, t, _ in params], rkind, monadic
+
+    def rs_cond(self, ast, w, env, name):
+        """`if increment_counter.yes() { !0 } else { 0 }` with integer-constant branches of width w"""
+        c = ast[1]
+        if not (c[0] == "meth" and c[2] == "yes" and not c[3] and c[1][0] == "var"
+                and env.get(c[1][1], (None,))[0] == ("u", 1)):
+            raise AnchorError(f"{name}: unsupported condition {c!r}")
+        rs_increment_counter_yes()
+
+        def const(a):
+            if a[0] == "num" and a[1] < (1 << w):
+                return str(a[1])
+            if a[0] == "un" and a[1] == "!" and a[2][0] == "num" and a[2][1] < (1 << w):
+                return f"(N.lnot {a[2][1]} {w})"     # bitwise NOT of a u{w}
+            raise AnchorError(f"{name}: unsupported branch {a!r}")
+        return f"(if {c[1][1]} then {const(ast[2])} else {const(ast[3])})"
+
+
+def rs_increment_counter_yes():
+    """src/lib.rs: IncrementCounter::yes() is `Yes => true, No => false` (the models read it as a bool)"""
+    lib = strip_comments(src("src/lib.rs"))
+    find1(r"enum\s+IncrementCounter\s*\{\s*Yes\s*,\s*No\s*,?\s*\}", lib, "IncrementCounter")
+    imp = fn_body(lib, r"impl\s+IncrementCounter\s*\{", "impl IncrementCounter")
+    body = fn_body(imp, r"fn\s+yes\s*\(\s*&self\s*\)\s*->\s*bool\s*\{", "IncrementCounter::yes")
+    find1(r"^\s*match\s+self\s*\{\s*IncrementCounter::Yes\s*=>\s*true\s*,\s*IncrementCounter::No\s*=>\s*false\s*,?\s*\}\s*$",
+          body, "IncrementCounter::yes body")
+
+
+COUNTER_FILES = [("c/blake3_sse2.c", "c", "c_sse2", ["load_counters"]),
+                 ("c/blake3_sse41.c", "c", "c_sse41", ["load_counters"]),
+                 ("c/blake3_avx2.c", "c", "c_avx2", ["load_counters"]),
+                 ("c/blake3_avx512.c", "c", "c_avx512", ["load_counters4", "load_counters8", "load_counters16"]),
+                 ("src/rust_sse2.rs", "rs", "rs_sse2", ["load_counters"]),
+                 ("src/rust_sse41.rs", "rs", "rs_sse41", ["load_counters"]),
+                 ("src/rust_avx2.rs", "rs", "rs_avx2", ["load_counters"])]
+
+
+def gen_counters():
+    out = ["(* GENERATED by tools/gen_coq.py (gen_counters) from the /repo working tree. Do not edit.\n"
+           "   Every load_counters* function of the C-intrinsics and Rust-intrinsics back ends, translated statement by\n"
+           "   statement (and every file-local helper they call) into terms over Model/Intrinsics.v.\n"
+           "   C: integer expressions are Z-valued with explicit conversions; the result is the pair of output registers.\n"
+           "   Rust: unsigned integers are evaluated by Base/MachInt.v (debug-build overflow checks), hence `res`. *)\n"
+           "From Coq Require Import NArith ZArith List.\n"
+           "From V Require Import Base.Res Base.MachInt gen.GenFormulas Model.Kernels Model.Intrinsics.\n"
+           "Import ListNotations.\nOpen Scope N_scope.\n\n"]
+    used, names = set(), []
+    for rel, lang, prefix, fns in COUNTER_FILES:
+        vf = VecFile(rel, lang, prefix)
+        pat = r"\b(load_counters\w*)\s*\([^()]*\)\s*\{" if lang == "c" else r"\bfn\s+(load_counters\w*)\s*\("
+        found = sorted(set(re.findall(pat, vf.text)))
+        if found != sorted(fns):
+            raise AnchorError(f"{rel}: load_counters functions {found}, expected {sorted(fns)}")
+        for f in fns:
+            coq, _, rkind, _ = vf.function(f, toplevel=True)
+            if [k[0] for k in rkind] != ["v", "v"] or rkind[0] != rkind[1]:
+                raise AnchorError(f"{rel}:{f}: expected two output registers of one width")
+            names.append((coq, rkind[0][1]))
+        out.extend(d + "\n" for d in vf.order)
+        used |= vf.used
+    out.append("(* translated functions and their lane counts: " + ", ".join(f"{c}/{n}" for c, n in names) + " *)\n")
+    out.append("(* intrinsics that occur: " + ", ".join(sorted(used)) + " *)\n")
+    return "".join(out)
+
+
 def write_if_changed(path, text):
     try:
         with open(path) as f:
@@ -1297,7 +2132,8 @@ def gen_globals(c_objects, rs_archives, rs_crate="blake3", hook_prefixes=()):
 GENERATORS = [("GenConsts.v", gen_consts), ("GenFormulas.v", gen_formulas), ("GenTestVectors.v", gen_test_vectors),
               ("GenDispatch.v", gen_dispatch),
               ("GenAsmFrames.v", gen_asm_frames),
-              ("GenApi.v", gen_api)]
+              ("GenApi.v", gen_api),
+              ("GenCounters.v", gen_counters)]
 
 
 def main():
